@@ -1,7 +1,7 @@
 (* Driver entry for the component compile model (C01, C09, C10, C14, C18): decoders of the
    program AST and encoders of the emitted PIL lines. *)
-From Coq Require Import List String Ascii Arith.
-From PC Require Import Base.Sexp Comp.Syntax Comp.Struct Comp.Wild Comp.Compile Comp.WfCheck.
+From Coq Require Import List String Ascii Arith Bool.
+From PC Require Import Base.Sexp Comp.Syntax Comp.Struct Comp.Wild Comp.Compile Comp.WfCheck Comp.WfPil.
 Import ListNotations.
 Local Open Scope string_scope.
 
@@ -108,13 +108,32 @@ Definition s_objs (c : comp) : sexp :=
       sL (fun p => s_sup (fst p) (t_sup (snd p))) (c_strands c);
       sL (fun p => Li [At (fst p); At (unchars (b_const (snd p))); sN (b_len (snd p))]) (c_bases c)].
 
+Definition d_nameb (s : sexp) : option (string * bool) := dP dS dB s.
+Definition d_pline (s : sexp) : option pline :=
+  match s with
+  | Li [At "sequence"; At n; At k; len] => option_map (PSeq n (chars k)) (dN len)
+  | Li [At "sup-sequence"; At n; items; len] =>
+      match dL d_nameb items, dN len with Some i, Some l => Some (PSup n i l) | _, _ => None end
+  | Li [At "strand"; d; At n; items; len] =>
+      match dB d, dL d_nameb items, dN len with Some d, Some i, Some l => Some (PStrand d n i l) | _, _, _ => None end
+  | Li [At "structure"; o; At n; ss; dp] =>
+      match dN o, dL dS ss, d_syms dp with Some o, Some ss, Some s => Some (PStruct o n ss s) | _, _, _ => None end
+  | Li [At "kinetic"; ins; outs] =>
+      match dL dS ins, dL dS outs with Some i, Some o => Some (PKin None None i o) | _, _ => None end
+  | Li [At "equal"; items] => option_map PEqual (dL d_nameb items)
+  | _ => None
+  end.
+(* the well-formedness predicate of C09, evaluated on a document the harness read from a real .pil *)
+Definition run_wfpil (req : sexp) : sexp :=
+  match dL d_pline req with Some lines => sB (wf_pil lines) | None => bad_request end.
+
 Definition run_comp (req : sexp) : sexp :=
   match req with
   | Li [ctr; At prefix; d; body] =>
       match dN ctr, d_declare d, dL d_stmt body with
       | Some ctr, Some d, Some body =>
           match compile_comp ctr prefix d body with
-          | OK (c, ctr') => sOk (Li [sN ctr'; sL s_pline (emit_comp c); sB (wf_check c); s_objs c])
+          | OK (c, ctr') => sOk (Li [sN ctr'; sL s_pline (emit_comp c); sB (wf_check c && wf_check2 c); s_objs c])
           | Err k => sErr k
           end
       | _, _, _ => bad_request
